@@ -19,7 +19,9 @@ Export ListNotations.
 (** large values are written by the harness as [zu k r] = k * 10^20 + r *)
 Definition zu (k r : Z) : Z := (k * 100000000000000000000 + r)%Z.
 
-Record obs := mk_obs { ob_res : res; ob_bal : bal; ob_outs : list N }.
+(** [ob_views = false]: the harness made no read call after this operation (a stretch of
+    operations without observation); only the result of the call is compared *)
+Record obs := mk_obs { ob_res : res; ob_bal : bal; ob_outs : list N; ob_views : bool }.
 
 Record case := mk_case {
   k_cfg : cfg; k_tip : N; k_utxos : list utxo; k_locked : list (N * N);
@@ -129,8 +131,9 @@ Definition check_step (byval : bool) (s : state) (o : op) (ob : option obs) : bo
       let '(ok, s'') :=
         if byval || has_ties s then check_byval s s' o (res_view o r) (ob_res ob)
         else (res_eqb (res_view o r) (ob_res ob), s') in
-      (ok && bal_eqb (balance s'') (ob_bal ob)
-          && ids_eqb (spendable_outputs s'') (ob_outs ob), s'')
+      (ok && (negb (ob_views ob)
+              || bal_eqb (balance s'') (ob_bal ob)
+                 && ids_eqb (spendable_outputs s'') (ob_outs ob)), s'')
   end.
 
 Fixpoint check_trace (byval : bool) (s : state) (t : list (op * option obs)) : bool :=
